@@ -171,6 +171,8 @@ inductive Ev
   | foreignTagv (m t : Nat)   -- ... of another shard, series new THERE: the database-level tag value dictionary (GenTagValueID)
   | appendBad            -- a log entry whose payload is not a snappy block (Replica: Uncompress fails)
   | applyBegin           -- partition.replica: Consume, GetMessage; Replica: ValidateSequence
+  | applyGetFail         -- partition.replica: Consume, GetMessage FAILS on an unreadable entry: IgnoreMessage only (no Replica)
+  | applyNoRows          -- Replica of an entry that decompresses but yields no rows (empty block / unmarshal panic / WriteRows error): CommitSequence only
   | applyTake            -- WriteRows: GetOrCreateMemoryDatabase (family mutex)
   | applyAcquire         -- WriteRows: db.AcquireWrite()
   | applyWrite           -- WriteRow (names -> metadata/index workers), row.Wait, CompleteWrite
@@ -235,6 +237,30 @@ def beginAt (cfg : Cfg) (st : St) (s : Int) : St :=
 def doApplyBegin (cfg : Cfg) (st : St) : St :=
   if st.inflight.isNone ∧ st.consumed + 1 ≤ st.appended then
     beginAt cfg { st with consumed := st.consumed + 1 } (st.consumed + 1)
+  else st
+
+/-- `partition.replica` when `replicator.GetMessage(seq)` returns an error (the entry cannot be read:
+it carries no usable rows, `none` in the model's log): `replicator.IgnoreMessage(seq)` and nothing
+else — `Replica` is not called, so there is NO `ValidateSequence` and NO `CommitSequence`: the family's
+sequence stays where it was, only the consumer group moves. -/
+def doApplyGetFail (cfg : Cfg) (st : St) : St :=
+  if st.inflight.isNone ∧ st.consumed + 1 ≤ st.appended ∧
+      st.log[(st.consumed + 1).toNat]? = some none then
+    ignoreMsg cfg { st with consumed := st.consumed + 1 } (st.consumed + 1)
+  else st
+
+/-- `localReplicator.Replica` of an entry that passes `Uncompress` but from which no row reaches the
+memory database: `rowsLen == 0` (return), a panic inside `UnmarshalRows` (the deferred function runs with
+`err == nil`, `partition.replica` recovers), or a failing `WriteRows` (its `err` is a shadowed variable:
+"drop write failure data"). In all three the deferred function does NOT call `IgnoreMessage` and DOES
+call `CommitSequence(seq)`; a rejected sequence returns before the defer is registered. Like every entry
+without rows it is `none` in the model's log. -/
+def doApplyNoRows (st : St) : St :=
+  if st.inflight.isNone ∧ st.consumed + 1 ≤ st.appended ∧
+      st.log[(st.consumed + 1).toNat]? = some none then
+    if validSeq st (st.consumed + 1) then
+      { st with consumed := st.consumed + 1, seq := some (st.consumed + 1) }
+    else { st with consumed := st.consumed + 1 }
   else st
 
 def addNames (st : St) (m t : Nat) : St :=
@@ -367,6 +393,8 @@ def step (cfg : Cfg) (st : St) (e : Ev) : St :=
   | .foreignTagv m t => whenRunning st { st with tagv := st.tagv.create (m, t) }
   | .appendBad => whenRunning st (if st.walGone then st else doAppendBad st)
   | .applyBegin => whenRunning st (if st.walGone then st else doApplyBegin cfg st)
+  | .applyGetFail => whenRunning st (if st.walGone then st else doApplyGetFail cfg st)
+  | .applyNoRows => whenRunning st (if st.walGone then st else doApplyNoRows st)
   | .applyTake => whenRunning st (doApplyTake cfg st)
   | .applyAcquire => whenRunning st (doApplyAcquire st)
   | .applyWrite => whenRunning st (doApplyWrite st)
